@@ -23,45 +23,107 @@ Qed.
 
 Lemma segmented_lut_gen_ok rule bits first data d s n :
   segmented_lut_gen rule bits first data = Ok (d, s, n) ->
-  segmented_ok bits first data = true /\ seg_count data 0 = Ok n /\
+  segmented_ok bits first data = true /\ seg_count data 0 = Ok n /\ n <> 0 /\ n <= 65536 /\
   d = [rule data n; first; bits] /\ s = palette_store bits data /\ Z.even (zlen s) = true.
 Proof.
   unfold segmented_lut_gen. destruct (segmented_ok bits first data) eqn:E; [|discriminate].
   destruct (seg_count data 0) as [m|k] eqn:Ec; cbn [bind]; [|discriminate].
-  intros H. inversion H; subst. repeat split.
+  destruct ((m =? 0) || (65536 <? m)) eqn:Eg; [discriminate|].
+  intros H. inversion H; subst. repeat split; try lia.
   apply palette_store_even. exact (segmented_ok_bits _ _ _ E).
 Qed.
 
 Lemma segmented_lut_refused_iff bits first data :
   (exists k, segmented_lut bits first data = Err k) <->
-  segmented_ok bits first data = false \/ exists k, seg_count data 0 = Err k.
+  segmented_ok bits first data = false \/ (exists k, seg_count data 0 = Err k) \/
+  (exists n, seg_count data 0 = Ok n /\ (n = 0 \/ 65536 < n)).
 Proof.
   unfold segmented_lut, segmented_lut_gen. destruct (segmented_ok bits first data); split.
-  - intros [k H]. right. destruct (seg_count data 0) as [m|k'] eqn:Ec; cbn [bind] in H; [discriminate|].
-    exists k'. reflexivity.
-  - intros [H | [k H]]; [discriminate|]. rewrite H. cbn [bind]. exists k. reflexivity.
+  - intros [k H]. right. destruct (seg_count data 0) as [m|k'] eqn:Ec; cbn [bind] in H.
+    + right. exists m. split; [reflexivity|].
+      destruct ((m =? 0) || (65536 <? m)) eqn:Eg; [lia | discriminate].
+    + left. exists k'. reflexivity.
+  - intros [H | [[k H] | [n [H Hn]]]]; [discriminate | |]; rewrite H; cbn [bind].
+    + exists k. reflexivity.
+    + replace ((n =? 0) || (65536 <? n)) with true by lia. exists "ValueError"%string. reflexivity.
   - intros _. left. reflexivity.
   - intros _. exists "ValueError"%string. reflexivity.
 Qed.
 
-(* an accepted table: the descriptor can be written as US and the accessor
-   gives the expanded length back EXACTLY when 1 <= length <= 2^16 *)
-Lemma segmented_descriptor_iff bits first data d s n :
-  segmented_lut bits first data = Ok (d, s, n) ->
-  (forallb fits_us d = true /\ entries_read (hd 0 d) = n) <-> 1 <= n <= 65536.
+(* accepted segment streams are sequences of complete (opcode 0 / 1, length,
+   value) triples, and with unsigned entries the count never decreases *)
+Inductive wf_segs : list Z -> Prop :=
+| wf_nil : wf_segs []
+| wf_cons op len v r : op = 0 \/ op = 1 -> wf_segs r -> wf_segs (op :: len :: v :: r).
+
+Lemma seg_count_wf_le k : forall data, (length data <= k)%nat -> forall n m, seg_count data n = Ok m ->
+  wf_segs data /\ ((forall v, In v data -> 0 <= v) -> n <= m).
 Proof.
-  intros H. apply segmented_lut_gen_ok in H. destruct H as (Hok & _ & -> & _ & _).
+  induction k as [|k IH]; intros data Hk n m H.
+  - destruct data; [|cbn in Hk; lia]. cbn in H. inversion H. split; [constructor | lia].
+  - destruct data as [|op rest]; [cbn in H; inversion H; split; [constructor | lia]|].
+    cbn [seg_count] in H.
+    destruct (op =? 0) eqn:E0.
+    + destruct rest as [|len [|v r]]; try discriminate.
+      assert (Hr : (length r <= k)%nat) by (cbn [length] in Hk; lia).
+      destruct (IH r Hr _ _ H) as [Hw Hle]. split.
+      * constructor; [lia | exact Hw].
+      * intros Hp. assert (0 <= len) by (apply Hp; right; left; reflexivity).
+        assert (n + len <= m) by (apply Hle; intros x Hx; apply Hp; right; right; right; exact Hx). lia.
+    + destruct (op =? 1) eqn:E1; [|discriminate].
+      destruct rest as [|len [|v r]]; try discriminate.
+      destruct (n =? 0); [discriminate|]. destruct (len =? 1); [discriminate|].
+      assert (Hr : (length r <= k)%nat) by (cbn [length] in Hk; lia).
+      destruct (IH r Hr _ _ H) as [Hw Hle]. split.
+      * constructor; [lia | exact Hw].
+      * intros Hp. assert (0 <= len) by (apply Hp; right; left; reflexivity).
+        assert (n + len <= m) by (apply Hle; intros x Hx; apply Hp; right; right; right; exact Hx). lia.
+Qed.
+
+Lemma seg_walk_wf data p : wf_segs data -> (length p <= 1)%nat -> seg_walk (data ++ p) = data.
+Proof.
+  intros Hw Hp. induction Hw as [|op len v r Ho Hw IH].
+  - destruct p as [|x [|y q]]; [reflexivity | reflexivity | cbn in Hp; lia].
+  - cbn [app seg_walk]. replace (op =? 2) with false by lia. rewrite IH. reflexivity.
+Qed.
+
+(* every accepted table can be written (the descriptor holds US values only),
+   number_of_entries gives the expanded length back, which lies in 1 .. 2^16,
+   and segmented_lut_data returns the caller's segmented data *)
+Lemma segmented_accepted_writable bits first data d s n :
+  (forall v, In v data -> 0 <= v < 2 ^ bits) ->
+  segmented_lut bits first data = Ok (d, s, n) ->
+  forallb fits_us d = true /\ entries_read (hd 0 d) = n /\ 1 <= n <= 65536 /\
+  segmented_read bits s = data.
+Proof.
+  intros Hr H. apply segmented_lut_gen_ok in H. destruct H as (Hok & Hc & Hn0 & Hn & -> & -> & _).
   pose proof (segmented_ok_first _ _ _ Hok) as Hf.
   pose proof (segmented_ok_bits _ _ _ Hok) as Hb.
-  cbn [forallb hd]. unfold fits_us, entries_read, entries_field.
-  destruct (n =? 65536) eqn:E1.
-  - assert (n = 65536) by lia. subst. cbn. split; [lia|]. intros _. split; [|reflexivity].
-    destruct Hb as [-> | ->]; lia.
-  - destruct (n =? 0) eqn:E2.
-    + assert (n = 0) by lia. subst. cbn. split; [intros [_ Hx]; discriminate | lia].
-    + split.
-      * intros [Hx _]. lia.
-      * intros Hn. split; [destruct Hb as [-> | ->]; lia | reflexivity].
+  destruct (seg_count_wf_le (length data) data (le_n _) 0 n Hc) as [Hw Hle].
+  assert (Hpos : 0 <= n).
+  { apply Hle. intros v Hv. apply Hr in Hv. lia. }
+  assert (H1 : 1 <= n <= 65536) by lia.
+  repeat split; try lia.
+  - cbn [forallb]. unfold fits_us, entries_field. destruct (n =? 65536) eqn:E; destruct Hb as [-> | ->]; lia.
+  - cbn [hd]. unfold entries_read, entries_field. destruct (n =? 65536) eqn:E; [cbn; lia|].
+    replace (n =? 0) with false by lia. reflexivity.
+  - unfold segmented_read, palette_store, lut_bytes, lut_pad. destruct Hb as [-> | ->]; cbn [Z.eqb Pos.eqb andb].
+    + apply seg_walk_wf; [exact Hw|]. destruct (Z.odd (zlen data)); cbn; lia.
+    + rewrite app_nil_r. apply words16_le16. intros v Hv. apply Hr in Hv. change (2 ^ 16) with 65536 in Hv. exact Hv.
+Qed.
+
+(* before fix cf58852 (D110) the same segments were accepted with a descriptor
+   that is no US value / reads back as another length *)
+Lemma segmented_unguarded_refuted :
+  (exists d s n, segmented_lut_unguarded 16 0 [0; 65535; 5; 0; 65535; 5] = Ok (d, s, n) /\ n = 131070 /\
+                 forallb fits_us d = false) /\
+  (exists d s n, segmented_lut_unguarded 8 0 [0; 0; 5] = Ok (d, s, n) /\ n = 0 /\ entries_read (hd 0 d) = 65536) /\
+  segmented_lut 16 0 [0; 65535; 5; 0; 65535; 5] = Err "ValueError" /\
+  segmented_lut 8 0 [0; 0; 5] = Err "ValueError".
+Proof.
+  split; [|split; [|split; vm_compute; reflexivity]].
+  - exists [131070; 0; 16], [0; 0; 255; 255; 5; 0; 0; 0; 255; 255; 5; 0], 131070. repeat split; vm_compute; reflexivity.
+  - exists [0; 0; 8], [0; 0; 5; 0], 0. repeat split; vm_compute; reflexivity.
 Qed.
 
 (* the seeded variant: identical to the library except on tables that expand
@@ -83,10 +145,12 @@ Proof.
   destruct (segmented_ok bits first data) eqn:E.
   - rewrite (stale_len_never_65536 _ _ _ E).
     destruct (seg_count data 0) as [n|k] eqn:Ec; cbn [bind].
-    + unfold entries_field. destruct (n =? 65536) eqn:En.
-      * assert (n = 65536) by lia. subst. split; [intros _; split; reflexivity|].
-        intros _ H. inversion H.
+    + destruct ((n =? 0) || (65536 <? n)) eqn:Eg.
       * split; [intros H; exfalso; apply H; reflexivity|]. intros [_ H]. inversion H. lia.
+      * unfold entries_field. destruct (n =? 65536) eqn:En.
+        -- assert (n = 65536) by lia. subst. split; [intros _; split; reflexivity|].
+           intros _ H. inversion H.
+        -- split; [intros H; exfalso; apply H; reflexivity|]. intros [_ H]. inversion H. lia.
     + split; [intros H; exfalso; apply H; reflexivity|]. intros [_ H]. discriminate.
   - split; [intros H; exfalso; apply H; reflexivity|]. intros [H _]. discriminate.
 Qed.
@@ -291,14 +355,6 @@ Proof.
 Qed.
 
 (* ------------------------------------------------ concrete instances *)
-Lemma segmented_oversize :
-  exists d s n, segmented_lut 16 0 [0; 65535; 5; 0; 65535; 5] = Ok (d, s, n) /\ n = 131070 /\
-                forallb fits_us d = false.
-Proof.
-  exists [131070; 0; 16], [0; 0; 255; 255; 5; 0; 0; 0; 255; 255; 5; 0], 131070.
-  repeat split; vm_compute; reflexivity.
-Qed.
-
 Lemma inplace_sort_reorders :
   exists low after, displayed_area_gen true true (number_from 0 [(32, 32); (8, 8)]) = Ok (low, after) /\
                     map fst after = [1; 0].
@@ -306,8 +362,10 @@ Proof. eexists _, _. split; reflexivity. Qed.
 
 Lemma ex_segmented_measures_area :
   run_segmented_lut 16 0 [0; 1; 0; 1; 65535; 65535] =
-    VL [vz_list [0; 0; 16]; vz_list [0; 0; 1; 0; 0; 0; 1; 0; 255; 255; 255; 255]; VZ 65536] /\
-  run_segmented_lut 8 0 [0; 3; 5] = VL [vz_list [3; 0; 8]; vz_list [0; 3; 5; 0]; VZ 3] /\
+    VL [vz_list [0; 0; 16]; vz_list [0; 0; 1; 0; 0; 0; 1; 0; 255; 255; 255; 255]; VZ 65536;
+        vz_list [0; 1; 0; 1; 65535; 65535]] /\
+  run_segmented_lut 8 0 [0; 3; 5] = VL [vz_list [3; 0; 8]; vz_list [0; 3; 5; 0]; VZ 3; vz_list [0; 3; 5]] /\
+  run_segmented_lut 8 0 [0; 0; 5] = VErr "ValueError" /\
   run_segmented_lut 16 0 [1; 5; 100] = VErr "IndexError" /\
   run_segmented_lut 16 0 [0; 1; 7; 1; 1; 100] = VErr "ValueError" /\
   run_segmented_lut 16 0 [0; 1; 5; 2; 3; 4] = VErr "ValueError" /\
